@@ -239,11 +239,25 @@ def run(tier, seed, replay=None):
             for k, pth in enumerate(["/PS3ISO/g.iso", "/***DVD***/d"]):
                 top = size if k == 0 else 131072
                 reqs = [{"op": "OPEN_FILE", "path": pth}]
-                for off in [0, 1, S - 1, top - 1, top, top + 1, top + 400, top + S - 1, top + S, 3 * S + 5, 10 ** 6, 2 ** 40]:
+                for off in [0, 1, S - 1, top - 1, top, top + 1, top + 400, top + S - 1, top + S, 3 * S + 5, 10 ** 6, 2 ** 40,
+                            2 ** 42 - 1, 2 ** 42, 2 ** 43 + 5, 2 ** 53 + 1, 2 ** 62 - 1]:
                     for lim in [1, 16, 512, 2049, 70000]:
                         reqs.append({"op": "READ_FILE", "limit": lim, "off": off})
                 conns.append({"id": k + 1, "reqs": reqs})
+                # transfers by the pooled 64 KiB buffer from far offsets: nothing to send, the connection ends - no crash
+                for j, off in enumerate([2 ** 42 - 1, 2 ** 42 + 2048, 2 ** 52, 2 ** 62 - 1]):
+                    conns.append({"id": 10 + 10 * k + j, "reqs": [{"op": "OPEN_FILE", "path": pth}, {"op": "READ_FILE_CRITICAL", "limit": 65536, "off": off}]})
             worlds.append({"name": "geometry-%d" % extra, "aw": False, "nodes": nodes, "views": [{"vk": "dvd", "p": ["d"]}], "conns": conns, "probe": True})
+        # directories with long / odd names served as images themselves (the name goes into fixed-width volume identifiers)
+        rnames = ["R" * 17, "R" * 33, "R" * 129, "R" * 255, "my game (EU) [v1.02] + dlc", "ゲームのディレクトリ名前です", "x" * 16 + "é"]
+        t = 1490000100
+        nodes, conns, views = [], [], []
+        for k, rn in enumerate(rnames):
+            nodes += [srv.dnode([rn], t + k), srv.fnode([rn, "a.bin"], 100 + k, cid="rootn%d" % k, mtime=t + 50 + k)]
+            views.append({"vk": "dvd", "p": [rn]})
+            conns.append({"id": k + 1, "reqs": [{"op": "OPEN_FILE", "path": "/***DVD***/" + rn}, {"op": "READ_FILE", "limit": 4096, "off": 32768},
+                                                {"op": "OPEN_FILE", "path": "/***PS3***/" + rn}, {"op": "STAT_FILE", "path": "/" + rn}]})
+        worlds.append({"name": "rootnames", "aw": False, "nodes": nodes, "views": views, "conns": conns, "probe": True})
         # hostile byte streams against a normal tree
         nstream = 300 if not full else 6000
         for i in range(0, nstream, 10):
